@@ -1,6 +1,261 @@
+/-
+Line-protocol driver for C17 (`sqfsmodel c17`).  One operation per input line, one result line each.
+
+Sort file (`Sqfs/Model/Sort.lean`):
+  decode <fix|cur> <line-hex>                       → skip | err <kind> | ok <prio> <flags> <g> <pattern-hex>
+        g: 0 = exact, 1 = glob_no_path, 2 = glob (FNM_PATHNAME)
+  sort <fix|cur> <nf> <path-hex>×nf <nl> <line-hex>×nl <matchbits|->
+        matchbits: for every decoded glob line, in order, one '0'/'1' per file (in the given order): libc's
+        fnmatch answer, supplied by the harness          → ok <path-hex>:<prio>:<flags> …  |  err <kind> <line-index>
+
+Packing (`Sqfs/Spec/PackSpec.lean`, `Sqfs/Model/PackCur.lean`), stateful:
+  pack-begin <B> <base>                              → ok        (resets codec table and file list)
+  cmp <in-hex> <out-hex>                             → ok        (codec table: cmp in = some out; unlisted = none)
+  file <flags> <data-hex>                            → ok
+  pack-run <fix|cur>                                 → blocks … frags … files …   (see `showOut`)
+  effective <notail 0/1> <B> <size> <flags>          → <flags'>  (option handling of mkfs.c / tar2sqfs)
+  export <n> (<inum> <iref>)×n                       → <iref> …  (export table after these add_export_table_entry calls, last = root)
+Monitor (the specification's read-back evaluated on a layout that the *implementation* produced), stateful:
+  mon-begin <B> <base>                               → ok        (cmp table is shared with pack-begin's)
+  mon-block <raw 0/1> <data-hex>                     → ok
+  mon-frag <start> <size> <raw 0/1>                  → ok
+  mon-read <size> <start> <fragidx|-> <fragoff> <w1,w2,…|->   → <data-hex>    (`readFile`)
+  mon-effects (<flags> <size> <start> <fragidx|-> <fragoff> <sparse> <w1,…|->)×n  → ok | <clause>@… (`effectViolations`
+        of Sqfs/Spec/Directives.lean on the implementation's per-file results, files in packing order, flags = effective flags)
+-/
 import Driver.Util
+import Sqfs.Model.Sort
+import Sqfs.Model.PackCur
+import Sqfs.Spec.PackSpec
+import Sqfs.Spec.Directives
 namespace Driver.C17
-/-- stub: the model driver for C17 is not built yet -/
+open Sqfs Sqfs.Sort Sqfs.Pack
+
+def showInt (i : Int) : String := toString i
+
+/-- hex decoding without deep recursion (payloads of up to 1 MiB) -/
+def hexNib (c : UInt8) : Option UInt8 :=
+  if 48 ≤ c ∧ c ≤ 57 then some (c - 48)
+  else if 97 ≤ c ∧ c ≤ 102 then some (c - 87)
+  else if 65 ≤ c ∧ c ≤ 70 then some (c - 55)
+  else none
+
+def fromHexFast (s : String) : Option (List UInt8) :=
+  if s = "-" then some []
+  else
+    let b := s.toUTF8
+    if b.size % 2 ≠ 0 then none
+    else Id.run do
+      let mut out : Array UInt8 := Array.mkEmpty (b.size / 2)
+      let mut ok := true
+      for i in [0:b.size / 2] do
+        match hexNib (b.get! (2 * i)), hexNib (b.get! (2 * i + 1)) with
+        | some x, some y => out := out.push (x * 16 + y)
+        | _, _ => ok := false
+      return if ok then some out.toList else none
+
+def hexChar (n : UInt8) : UInt8 := if n < 10 then 48 + n else 87 + n
+
+def toHexFast (bs : List UInt8) : String :=
+  if bs.isEmpty then "-"
+  else
+    let arr := bs.foldl (fun (a : ByteArray) b => (a.push (hexChar (b / 16))).push (hexChar (b % 16))) (ByteArray.emptyWithCapacity (2 * bs.length))
+    String.fromUTF8! arr
+
+def gOf (d : Directives) : Nat := if d.doGlob then (if d.pathGlob then 2 else 1) else 0
+
+def mode? : String → Option Bool
+  | "fix" => some true
+  | "cur" => some false
+  | _ => none
+
+def opDecode (terminate : Bool) (raw : List UInt8) : String :=
+  match decodeLine terminate raw with
+  | .error e => "err " ++ e.name
+  | .ok none => "skip"
+  | .ok (some l) => s!"ok {showInt l.priority} {l.dir.flags} {gOf l.dir} {toHexFast l.pattern}"
+
+def allSome : List (Option α) → Option (List α)
+  | [] => some []
+  | none :: _ => none
+  | some a :: t => (allSome t).map (a :: ·)
+
+/-- build the fnmatch answer table: one row of `nf` bits per decoded glob line -/
+def buildTable (paths : List (List UInt8)) : List SortLine → List Char → Option (List ((Bool × List UInt8 × List UInt8) × Bool))
+  | [], _ => some []
+  | l :: ls, bits =>
+    if l.dir.doGlob then
+      if bits.length < paths.length then none
+      else
+        let row := bits.take paths.length
+        let here := (paths.zip row).map (fun (p, b) => ((l.dir.pathGlob, l.pattern, p), b == '1'))
+        (buildTable paths ls (bits.drop paths.length)).map (here ++ ·)
+    else buildTable paths ls bits
+
+def tableMatcher (tbl : List ((Bool × List UInt8 × List UInt8) × Bool)) : Matcher :=
+  fun pg pat path => match tbl.find? (fun e => e.1 == (pg, pat, path)) with
+    | some e => e.2
+    | none => false
+
+def opSort (terminate : Bool) (paths lines : List (List UInt8)) (bits : String) : String :=
+  match decodeLines terminate 0 lines with
+  | .error (e, i) => s!"err {e.name} {i}"
+  | .ok ls =>
+    match buildTable paths ls (if bits = "-" then [] else bits.toList) with
+    | none => "bad-op"
+    | some tbl =>
+      match sortFiles terminate (tableMatcher tbl) lines paths with
+      | .error (e, i) => s!"err {e.name} {i}"
+      | .ok fs => "ok" ++ String.join (fs.map (fun f => s!" {toHexFast f.path}:{showInt f.priority}:{f.flags}"))
+
+structure St where
+  B : Nat := 0
+  base : Nat := 0
+  table : List (List UInt8 × List UInt8) := []
+  files : List InFile := []
+  mblocks : List Stored := []
+  mfrags : List FragEntry := []
+
+def St.codec (s : St) : Codec :=
+  { cmp := fun x => (s.table.find? (fun e => e.1 == x)).map (·.2)
+    unc := fun z => match s.table.find? (fun e => e.2 == z) with
+      | some e => e.1
+      | none => [] }
+
+/-- the driver's checksum: the layout does not depend on it unless `DONT_HASH` is mixed in, which the tools
+never set (the dedup rule compares the bytes whenever the checksums agree) -/
+def drvHash (d : List UInt8) : UInt32 := d.foldl (fun a b => a * 31 + b.toUInt32) 7
+
+def St.params (s : St) : Params := { B := s.B, base := s.base, codec := s.codec, h := drvHash }
+
+def b01 (b : Bool) : String := if b then "1" else "0"
+
+def showWords (ws : List Word) : String :=
+  if ws.isEmpty then "-" else ",".intercalate (ws.map (fun w => toString w.toNat))
+
+def showFile (r : FileResult) : String :=
+  let fr := match r.frag with
+    | none => "-:0"
+    | some (i, o) => s!"{i}:{o}"
+  s!"{r.size}:{r.start}:{fr}:{r.sparse}:{b01 r.extended}:{b01 r.shared}:{showWords r.words}"
+
+def showOut (o : Out) : String :=
+  "blocks" ++ String.join (o.blocks.map (fun b => s!" {b01 b.raw}:{toHexFast b.data}"))
+    ++ " frags" ++ String.join (o.frags.map (fun e => s!" {e.start}:{e.size}:{b01 e.raw}"))
+    ++ " files" ++ String.join (o.files.map (fun r => " " ++ showFile r))
+
+def parseWords (s : String) : Option (List Word) :=
+  if s = "-" then some []
+  else allSome ((s.splitOn ",").map (fun t => t.toNat?.map (fun n =>
+    if n = 0 then Word.sparse else Word.stored (n % rawBit) (n / rawBit % 2 == 1))))
+
+def natsPairs : List String → Option (List (Nat × UInt64))
+  | [] => some []
+  | [_] => none
+  | a :: b :: t => do
+    let x ← a.toNat?
+    let y ← b.toNat?
+    let r ← natsPairs t
+    pure ((x, UInt64.ofNat y) :: r)
+
+def flagsToNat (F : Flags) : Nat :=
+  (if F.dontCompress then Consts.blkDontCompress else 0) + (if F.dontHash then Consts.blkDontHash else 0)
+  + (if F.dontFragment then Consts.blkDontFragment else 0) + (if F.dontDedup then Consts.blkDontDeduplicate else 0)
+  + (if F.ignoreSparse then Consts.blkIgnoreSparse else 0)
+
+def parseEffFiles : List String → Option (List ((Flags × Nat) × FileResult))
+  | [] => some []
+  | fl :: sz :: st :: fi :: fo :: sp :: ws :: t => do
+    let fl ← fl.toNat?
+    let sz ← sz.toNat?
+    let st ← st.toNat?
+    let fo ← fo.toNat?
+    let sp ← sp.toNat?
+    let ws ← parseWords ws
+    let frag ← if fi = "-" then some none else fi.toNat?.map (fun i => some (i, fo))
+    let r ← parseEffFiles t
+    pure (((Flags.ofNat fl, sz), ⟨sz, ws, st, frag, sp, false⟩) :: r)
+  | _ => none
+
+def step (s : St) (line : String) : St × String :=
+  match words line with
+  | ["decode", m, h] =>
+    match mode? m, fromHexFast h with
+    | some t, some raw => (s, opDecode t raw)
+    | _, _ => (s, "bad-op")
+  | "sort" :: m :: nf :: rest =>
+    match mode? m, nf.toNat? with
+    | some t, some nf =>
+      match allSome ((rest.take nf).map fromHexFast), (rest.drop nf) with
+      | some paths, nl :: rest2 =>
+        match nl.toNat? with
+        | some nl =>
+          match allSome ((rest2.take nl).map fromHexFast), rest2.drop nl with
+          | some lines, [bits] =>
+            if paths.length = nf ∧ lines.length = nl then (s, opSort t paths lines bits) else (s, "bad-op")
+          | _, _ => (s, "bad-op")
+        | none => (s, "bad-op")
+      | _, _ => (s, "bad-op")
+    | _, _ => (s, "bad-op")
+  | ["pack-begin", b, base] =>
+    match b.toNat?, base.toNat? with
+    | some b, some base => ({ B := b, base := base }, "ok")
+    | _, _ => (s, "bad-op")
+  | ["cmp", i, o] =>
+    match fromHexFast i, fromHexFast o with
+    | some i, some o => ({ s with table := (i, o) :: s.table }, "ok")
+    | _, _ => (s, "bad-op")
+  | ["file", fl, d] =>
+    match fl.toNat?, fromHexFast d with
+    | some fl, some d => ({ s with files := s.files ++ [⟨Flags.ofNat fl, d⟩] }, "ok")
+    | _, _ => (s, "bad-op")
+  | ["pack-run", m] =>
+    match mode? m with
+    | some true => (s, showOut (specPack s.params s.files))
+    | some false =>
+      let r := PackCur.packCur s.params s.files
+      (s, showOut r.1 ++ " d24 " ++ b01 r.2.1 ++ " d27 " ++ b01 r.2.2)
+    | none => (s, "bad-op")
+  | ["effective", nt, b, sz, fl] =>
+    match nt.toNat?, b.toNat?, sz.toNat?, fl.toNat? with
+    | some nt, some b, some sz, some fl => (s, toString (flagsToNat (effectiveFlags (nt != 0) b sz (Flags.ofNat fl))))
+    | _, _, _, _ => (s, "bad-op")
+  | "export" :: n :: rest =>
+    match n.toNat?, natsPairs rest with
+    | some n, some ps =>
+      if ps.length = n ∧ n > 0 ∧ ps.all (fun p => p.1 ≥ 1) then
+        (s, " ".intercalate ((exportTable ps.dropLast (ps.getLast?.getD (1, 0))).map (fun r => toString r.toNat)))
+      else (s, "bad-op")
+    | _, _ => (s, "bad-op")
+  | ["mon-begin", b, base] =>
+    match b.toNat?, base.toNat? with
+    | some b, some base => ({ s with B := b, base := base, mblocks := [], mfrags := [] }, "ok")
+    | _, _ => (s, "bad-op")
+  | ["mon-block", r, d] =>
+    match fromHexFast d with
+    | some d => ({ s with mblocks := s.mblocks ++ [⟨r == "1", 0, d⟩] }, "ok")
+    | none => (s, "bad-op")
+  | ["mon-frag", st, sz, r] =>
+    match st.toNat?, sz.toNat? with
+    | some st, some sz => ({ s with mfrags := s.mfrags ++ [⟨st, sz, r == "1"⟩] }, "ok")
+    | _, _ => (s, "bad-op")
+  | ["mon-read", sz, st, fi, fo, ws] =>
+    match sz.toNat?, st.toNat?, fo.toNat?, parseWords ws with
+    | some sz, some st, some fo, some ws =>
+      let frag := if fi = "-" then none else fi.toNat?.map (fun i => (i, fo))
+      let o : Out := ⟨s.mblocks, s.mfrags, []⟩
+      (s, toHexFast (readFile s.params o ⟨sz, ws, st, frag, 0, false⟩))
+    | _, _, _, _ => (s, "bad-op")
+  | "mon-effects" :: rest =>
+    match parseEffFiles rest with
+    | some fs =>
+      let o : Out := ⟨s.mblocks, s.mfrags, fs.map (·.2)⟩
+      let v := effectViolations s.B (fs.map (·.1)) o
+      (s, if v.isEmpty then "ok" else " ".intercalate v)
+    | none => (s, "bad-op")
+  | _ => (s, "bad-op")
+
 def run (_args : List String) : IO Unit := do
-  IO.eprintln "sqfsmodel: model C17 not built yet"
+  stateLoop (← IO.getStdin) (← IO.getStdout) step ({} : St)
+
 end Driver.C17
